@@ -203,6 +203,16 @@ func ReuseWAL(cfg *config.Config, dir string, nextSeq uint64) (*WAL, error) {
 		return nil, nil
 	}
 
+	// Never append behind damage: replay stops at the first unreadable record,
+	// so anything written after it would be lost by the next recovery
+	if !isCleanWALFile(latestWAL) {
+		file.Close()
+		if !DisableRecoveryLogs {
+			fmt.Printf("Latest WAL file %s is damaged; not reusing it\n", latestWAL)
+		}
+		return nil, nil
+	}
+
 	if !DisableRecoveryLogs {
 		fmt.Printf("Reusing existing WAL file: %s with next sequence %d\n",
 			latestWAL, nextSeq)
@@ -221,6 +231,21 @@ func ReuseWAL(cfg *config.Config, dir string, nextSeq uint64) (*WAL, error) {
 	}
 
 	return wal, nil
+}
+
+// isCleanWALFile reports whether every record of the file can be read
+func isCleanWALFile(path string) bool {
+	reader, err := OpenReader(path)
+	if err != nil {
+		return false
+	}
+	defer reader.Close()
+
+	for {
+		if _, err := reader.ReadEntry(); err != nil {
+			return err == io.EOF
+		}
+	}
 }
 
 // Append adds an entry to the WAL
